@@ -647,6 +647,7 @@ type cellResult struct {
 
 // translateCells emits one Lean definition for fn. classes groups parameter names that alias.
 var cellsAPIMode bool
+var cellsParamsNonNil bool // parameters of the translated block are local objects, never nil
 
 func translateCells(p *pkgSrc, pkg string, fn *ast.FuncDecl, leanName string, classes [][]string, globals map[string]ast.Expr) cellResult {
 	t := &cellTr{fset: p.fset, pkg: pkg, fname: fn.Name.Name, cur: map[*cell]string{}, dirty: map[*cell]bool{}, env: map[string]cval{}, globals: globals,
@@ -721,7 +722,7 @@ func translateCells(p *pkgSrc, pkg string, fn *ast.FuncDecl, leanName string, cl
 		}
 		if k == "elem" {
 			t.topElems[rep] = v
-			t.maybeNil[rep] = !hasRecv
+			t.maybeNil[rep] = !hasRecv && !cellsParamsNonNil
 		}
 		groups = append(groups, group{rep, k, v})
 	}
@@ -967,7 +968,88 @@ func genCurve(field, scal, root *pkgSrc, out string) {
 		{root, "root", "Element.Set", "set", [][]string{{"e"}, {"element"}}},
 		{root, "root", "Element.Copy", "copy", nil},
 	}, "GenElementAPI", "import Secp.FieldOps", out+"/ElementAPI.lean")
+	genLadder(root, out+"/Ladder.lean")
 	cellsAPIMode = false
+}
+
+// genLadder reads the loop of (*Element).multiply: its header (start, bound, direction), the condition of its single
+// if/else, and translates the two branches as functions of the two registers (callees inlined on shared cells).
+func genLadder(root *pkgSrc, outPath string) {
+	var b strings.Builder
+	b.WriteString(header)
+	b.WriteString("import Secp.FieldOps\nnamespace GenLadder\n\n")
+	note := func(msg string) {
+		fmt.Fprintf(&b, "-- NOT TRANSLATED: %s\n\nend GenLadder\n", msg)
+		writeIfChanged(outPath, b.String())
+	}
+	fd, ok := root.funcs["Element.multiply"]
+	if !ok {
+		note("Element.multiply not found")
+		return
+	}
+	var loop *ast.ForStmt
+	nloops := 0
+	var before, after []string
+	for _, st := range fd.Body.List {
+		if f, ok := st.(*ast.ForStmt); ok {
+			loop = f
+			nloops++
+			continue
+		}
+		if loop == nil {
+			before = append(before, nodeText(root.fset, st))
+		} else {
+			after = append(after, nodeText(root.fset, st))
+		}
+	}
+	if nloops != 1 {
+		note(fmt.Sprintf("expected one loop in multiply, found %d", nloops))
+		return
+	}
+	hdr := nodeText(root.fset, loop.Init) + "; " + nodeText(root.fset, loop.Cond) + "; " + nodeText(root.fset, loop.Post)
+	if len(loop.Body.List) != 1 {
+		note("loop body is not a single if/else")
+		return
+	}
+	ifs, ok := loop.Body.List[0].(*ast.IfStmt)
+	els, ok2 := func() (*ast.BlockStmt, bool) {
+		if !ok || ifs.Else == nil || ifs.Init != nil {
+			return nil, false
+		}
+		e, ok := ifs.Else.(*ast.BlockStmt)
+		return e, ok
+	}()
+	if !ok || !ok2 {
+		note("loop body is not a single if/else")
+		return
+	}
+	fmt.Fprintf(&b, "/-- header of the loop of `multiply` (init; condition; post) -/\ndef loopHeader : String := %q\n\n", hdr)
+	fmt.Fprintf(&b, "/-- condition selecting the first branch -/\ndef branchCondition : String := %q\n\n", nodeText(root.fset, ifs.Cond))
+	fmt.Fprintf(&b, "/-- statements of `multiply` before and after the loop -/\ndef prelude : List String := [%s]\ndef epilogue : List String := [%s]\n\n",
+		quoteAll(before), quoteAll(after))
+	mk := func(name string, body *ast.BlockStmt) *ast.FuncDecl {
+		star := func() ast.Expr { return &ast.StarExpr{X: ast.NewIdent("Element")} }
+		return &ast.FuncDecl{Name: ast.NewIdent(name), Type: &ast.FuncType{Params: &ast.FieldList{List: []*ast.Field{
+			{Names: []*ast.Ident{ast.NewIdent("r0")}, Type: star()}, {Names: []*ast.Ident{ast.NewIdent("r1")}, Type: star()}}}}, Body: body}
+	}
+	for _, br := range []struct {
+		name string
+		body *ast.BlockStmt
+	}{{"branchThen", ifs.Body}, {"branchElse", els}} {
+		func() {
+			defer func() {
+				if r := recover(); r != nil {
+					fmt.Fprintf(&b, "-- NOT TRANSLATED: %s (%v)\n\n", br.name, strings.ReplaceAll(fmt.Sprint(r), "\n", " "))
+				}
+			}()
+			cellsParamsNonNil = true
+			defer func() { cellsParamsNonNil = false }()
+			r := translateCells(root, "root", mk(br.name, br.body), br.name, [][]string{{"r0"}, {"r1"}}, pkgGlobals(root))
+			b.WriteString(r.text + "\n")
+		}()
+	}
+	b.WriteString("end GenLadder\n")
+	writeIfChanged(outPath, b.String())
 }
 
 // genCellsTolerant: like genCells, but a method outside the accepted subset is left out (with a note) instead of stopping
